@@ -131,19 +131,24 @@ def judge(case, ctx, prefix='C10'):
     if not kap < 1e10:
         order = []
         ctx.count('set_aside_state_identity_ill_conditioned')
-    for k, sid in enumerate(order):
+    used = {}
+    for sid in order:
         row = call(ssm.c_row_voltage if sid in cv else ssm.c_row_current, sid)
         drow = call(ssm.d_row_voltage if sid in cv else ssm.d_row_current, sid)
         if raised(row) or raised(drow):
             bad = row if raised(row) else drow
             ctx.violation(f'{prefix}/row-accessor-raised/{bad.key}', bad.text, {})
             return
+        r = np.asarray(row, dtype=float).reshape(-1)
+        k = int(np.argmax(np.abs(r))) if r.size else 0
         e = np.zeros(len(order)); e[k] = 1
-        sc = max(1.0, float(np.max(np.abs(row))))
-        if np.max(np.abs(np.asarray(row).reshape(-1) - e)) > id_tol * sc or np.max(np.abs(np.asarray(drow).reshape(-1))) > id_tol * max(1.0, float(np.max(np.abs(D))) if D.size else 1.0):
+        sc = max(1.0, float(np.max(np.abs(r))))
+        # the states ARE the capacitor voltages / inductor currents: each is exactly one state (any consistent order), no feedthrough
+        if np.max(np.abs(r - e)) > id_tol * sc or np.max(np.abs(np.asarray(drow).reshape(-1))) > id_tol * max(1.0, float(np.max(np.abs(D))) if D.size else 1.0) or k in used:
             ctx.violation(f'{prefix}/state-identity/{"capacitor" if sid in cv else "inductor"}/{okey}',
-                          f'state {k} should be the {"voltage" if sid in cv else "current"} of {sid!r}; C-row {np.asarray(row).reshape(-1)!r}, D-row {np.asarray(drow).reshape(-1)!r}', {'order_class': oc})
+                          f'the {"voltage" if sid in cv else "current"} of {sid!r} is not one state of its own: C-row {r!r}, D-row {np.asarray(drow).reshape(-1)!r}' + (f' (state {k} already stands for {used[k]!r})' if k in used else ''), {'order_class': oc})
             break
+        used[k] = sid
     ctx.count('state_identity_checked')
     lo, hi = time_constants(A)
     ws = [0.0] + [float(x) for x in np.logspace(math.log10(lo) - 1.5, math.log10(hi) + 1.5, 6)]
